@@ -14,6 +14,10 @@ CHECKS = {
    text="Every rule list up to length 2 (quick) / 3 (thorough) over an alphabet of well-formed and malformed cidr / client_random_prefix / mask / action values x 7 peers (IPv4, IPv6, IPv4-mapped) x 6 client randoms, through RulesEngine::evaluate, through the call core.rs makes, and through the rules_file TOML path, against a reference evaluator written from CONFIGURATION.md.",
    note="Trusted: the reference evaluator; combinations the documentation does not define are unconstrained.",
    tech="bounded-exhaustive enumeration of configurations x inputs on the real code vs a reference evaluator"),
+ "C06": dict(cat="exploration",
+   text="Every sequence of <=2 (quick) / <=3 (thorough) records over 15 valid and unacceptable record kinds; for each stream the unsegmented run, every 1- and 2-cut, 3-cuts (thorough), and byte-at-a-time delivery through the production decoder driven as DatagramDecoder::read drives it, compared with a one-shot reference decoder written from PROTOCOL.md 6.3/11.2; encoder cross product vs 6.4.",
+   note="Trusted: the reference decoder/encoder. Acceptance bounds between the implementation's limit and 65507 payload bytes are not exercised. A decode that does not return in 20 s is reported as wedged.",
+   tech="bounded-exhaustive enumeration of inputs x segmentations on the real decoder vs a reference decoder"),
 }
 NOT_YET = "check not built yet in this round (planned, see DESIGN.md section 3)"
 
